@@ -107,6 +107,10 @@ class StoreFileFaults(c12.StoreFile):
         c.prove(f"failure-surfaces-as-DataAccessError:{type(exc).__name__}", isinstance(exc, DataAccessError), kind="exc")
         c.prove("only-the-target-path-may-have-changed",
                 other_entries_untouched(c, [BASE + "/" + name, BASE + "/" + name + ".gz"]), kind="exc")
+        # what was stored earlier under this name stays readable when the store fails before it got to write:
+        # an entry that no write reached must not have been deleted either
+        c.prove("a-failed-store-does-not-delete-the-earlier-version-it-never-overwrote",
+                all(not (e.initial and getattr(e, "unlinked", False)) for e in get_fs().entries), kind="exc")
 
 
 @register
